@@ -104,7 +104,7 @@ func genBridgeBlocks(r *hlib.Rng, nb int, start uint64) ([]BBlock, []common.Hash
 			pos += uint64(r.Intn(3))
 			tag++
 			e := genBridge(r, dc, pos, tag)
-			if n := len(all); n >= 2 && r.Intn(4) == 0 { // a deposit equal to the one two counts earlier: equal leaves on positions of the same parity
+			if n := len(all); n >= 2 && dc%5 == 4 { // deposits 4, 9, 14 ..: equal to the one two counts earlier (equal leaves on positions of the same parity); no random draw, so that the rest of the history is what it was before this rule existed
 				e = all[n-2]
 				e.Pos, e.Tag, e.DC = pos, tag, dc
 			}
